@@ -1,6 +1,7 @@
 import Taskpool.Model.Queue
 /-! Line-protocol driver of M2 (`qdriver`): one op line in, one observation line out; `reset` starts a new history.
-Every op is `Q.step` of the model the C20 theorems are about. -/
+Every op is `Q.step` of the model the C20 theorems are about; `mkq n` — only as the first line of a history — makes the
+initial state `Q.initN n` (`Queue(maxsize=n)`) instead of `Q.init` (`Queue()`). -/
 open Taskpool.QueueM
 
 def showPhase : CPhase → String
@@ -10,6 +11,10 @@ def showPhase : CPhase → String
 def showEv : Ev → String
   | .got c i => s!"G{c}:{i}" | .exited c => s!"X{c}" | .taskDone u => s!"T{u}" | .valueError => "VE"
   | .sawCancel c => s!"C{c}" | .joined j => s!"J{j}" | .handTook i => s!"H{i}"
+  | .putDone p i => s!"P{p}:{i}" | .pCancel p => s!"K{p}"
+
+def showPPhase : PPhase → String
+  | .notStarted => "N" | .waiting => "W" | .done true => "Dput" | .done false => "Dcan"
 
 /-- observation after an op; `seen` = length of the log before it -/
 def obs (q : Q) (seen : Nat) (r : String) : String :=
@@ -17,7 +22,8 @@ def obs (q : Q) (seen : Nat) (r : String) : String :=
   let cs := ",".intercalate (k.cores.map fun c => showPhase c.phase)
   let js := ",".intercalate (k.joiners.map fun j => match j.phase with | .done => "D" | _ => "P")
   let ms := ",".intercalate (k.cores.map fun c => toString c.marks)
-  s!"r={r} | n={k.items.length} u={k.unfinished} q={q.ready.length} | ev={",".intercalate ((q.log.drop seen).map showEv)} | c={cs} | j={js} | g={k.puts},{k.exits},{k.tdCalls},{k.valueErrors},{k.takes} m={ms}"
+  let ps := ",".intercalate (k.prods.map fun p => showPPhase p.phase)
+  s!"r={r} | n={k.items.length} u={k.unfinished} q={q.ready.length} | ev={",".intercalate ((q.log.drop seen).map showEv)} | c={cs} | j={js} | g={k.puts},{k.exits},{k.tdCalls},{k.valueErrors},{k.takes},{k.hputs} m={ms} | p={ps}"
 
 def parseInput (toks : List String) : Option Input :=
   match toks with
@@ -30,13 +36,17 @@ def parseInput (toks : List String) : Option Input :=
   | ["take"] => some .take
   | ["run"] => some (.run 0)
   | ["run", i] => i.toNat?.map .run
+  | ["produce", x] => x.toNat?.map .produce
+  | ["cancelp", j] => j.toNat?.map .cancelp
   | _ => none
 
-/-- `ok`/`noop`/`empty` (= `get_nowait()` raised `QueueEmpty`) as the harness reports it for the real objects -/
+/-- `ok`/`noop`/`empty` (= `get_nowait()` raised `QueueEmpty`)/`full` (= `put_nowait()` raised `QueueFull`) as the
+harness reports it for the real objects -/
 def verdict (q : Q) : Input → String
   | .gate c _ => if q.canGate c then "ok" else "noop"
   | .run i => if i < q.ready.length then "ok" else "noop"
   | .take => if q.k.items.isEmpty then "empty" else "ok"
+  | .put _ => if q.k.full then "full" else "ok"
   | _ => "ok"
 
 partial def loop (h out : IO.FS.Stream) (q : Q) : IO Unit := do
@@ -45,6 +55,13 @@ partial def loop (h out : IO.FS.Stream) (q : Q) : IO Unit := do
   let toks := (line.trimAscii.toString.splitOn " ").filter (· ≠ "")
   if toks == ["reset"] then
     out.putStrLn "reset"; loop h out Q.init
+  else if toks.length == 2 && toks.head? == some "mkq" then
+    match (toks.getD 1 "").toNat? with
+    | none => out.putStrLn "bad-op"; loop h out q
+    | some n =>
+      let q1 := Q.initN n
+      out.putStrLn (obs q1 0 "ok")
+      loop h out q1
   else
     match parseInput toks with
     | none => out.putStrLn "bad-op"; loop h out q
